@@ -272,6 +272,7 @@ pub fn run_c05(p: &Params) -> Outcome {
         max_subs: 4,
         poll_pct: 30,
         drop_vec_pct: 4,
+        drop_all_pm: 0,
     };
     out.merge(random("C05", p, n, &g, &nt, "c05-rand"));
     out
@@ -337,6 +338,7 @@ pub fn run_c06(p: &Params) -> Outcome {
         max_subs: 4,
         poll_pct: 12,
         drop_vec_pct: 3,
+        drop_all_pm: 0,
     };
     out.merge(random("C06", p, n, &g, &nt, "c06-rand"));
     if out.violations.is_empty() && out.ev.get("resets_delivered") == 0 {
@@ -457,6 +459,7 @@ pub fn run_c07(p: &Params) -> Outcome {
         max_subs: 3,
         poll_pct: 25,
         drop_vec_pct: 3,
+        drop_all_pm: 15,
     };
     out.merge(random("C07", p, n, &g, &nt, "c07-rand"));
     out
@@ -552,6 +555,7 @@ pub fn run_c08(p: &Params) -> Outcome {
         max_subs: 4,
         poll_pct: 20,
         drop_vec_pct: 40,
+        drop_all_pm: 0,
     };
     out.merge(random("C08", p, n, &g, &nt, "c08-rand"));
     out
@@ -617,6 +621,7 @@ pub fn run_c17(p: &Params) -> Outcome {
         max_subs: 2,
         poll_pct: 20,
         drop_vec_pct: 2,
+        drop_all_pm: 15,
     };
     out.merge(random("C17", p, n, &g, &nt, "c17-rand"));
     out
